@@ -155,3 +155,10 @@ Section RT.
     Proof. intros Wm Wi. unfold load, dump. rewrite yaml_rt. now apply stream_roundtrip. Qed.
   End Text.
 End RT.
+
+Lemma empty_hint_witness : NEWOBJ_DUMP_ONLY_IF_TRUTHY = true -> NEWOBJ_LOAD_REQUIRED = true ->
+  forall is_uuid, exists v, construct is_uuid (represent v) <> ROk v.
+Proof.
+  intros H1 H2 is_uuid. exists (YNew [] KNil).
+  rewrite (empty_hint_fails is_uuid H1 H2 KNil eq_refl eq_refl). discriminate.
+Qed.
